@@ -153,6 +153,10 @@ fn one_case(seed: u64, i: u64) -> CaseOut {
                 rng.s(&["print 99999999999", "goto 0x3000000000", "p ^+123456789012", "assembly x123456789abc", "step into 18446744073709551616",
                     "break add 340282366920938463463374607431768211456", "move r0 99999999999"]).to_string(),
             ),
+            // an `eval` whose text ends in something the assembler's lexer does not know: refused, and the session goes on
+            _ if rng.chance(1, 6) => Cmd::Inspect(
+                rng.s(&["eval add r0 r0 @", "eval $", "eval add r0 r0 #1 ~", "eval @", "eval not r1 r1 `", "eval add r0 r0 \u{e9}", "eval ld r0 %", "eval \\"]).to_string(),
+            ),
             _ => Cmd::Inspect(match rng.below(8) {
                 0 => "registers".to_string(),
                 1 => format!("assembly x{:04x}", img.origin().wrapping_sub(1 + rng.below(3) as u16)),
